@@ -455,10 +455,17 @@ func Main(t *testing.T, p *Property) {
 			out.ReplayPath = rf.path
 			break
 		}
-		if len(out.Samples) < 3 {
+		if len(out.Samples) < 3 && cfg.Build != "race" {
+			// re-run the same seed with tracing on to show what the case looked like
+			tc := RunOne(t, sc, tape.New(seed), cfg.Tier, true)
+			th := head(tc.Log, 30)
+			if th == nil {
+				th = []string{}
+			}
 			out.Samples = append(out.Samples, map[string]any{
-				"scenario": sc.Name, "run": run, "config": c.Config, "draws": tp.Draws(),
-				"steps": c.Steps, "policy": c.Policy, "trace_head": head(c.Log, 12),
+				"scenario": sc.Name, "run": run, "tape_seed": fmt.Sprint(seed), "config": c.Config, "draws": tp.Draws(),
+				"steps": c.Steps, "policy": c.Policy, "evaluations": c.Evals, "trace_head": th,
+				"same_hash_on_rerun": tc.Hash == c.Hash,
 			})
 		}
 	}
